@@ -43,7 +43,7 @@ func cutAfterCommits(l *hist.Layout, n int) func([]fakemaster.Step, []int) []fak
 	}
 }
 
-func checkCommands(cmds []fakemaster.Command, serverID uint32, want hist.Pos, attemptNo int) error {
+func checkCommands(cmds []fakemaster.Command, serverID uint32, allowed map[hist.Pos]bool, attemptNo int) error {
 	dumps, sawChecksum := 0, false
 	for _, c := range cmds {
 		switch c.Code {
@@ -63,8 +63,8 @@ func checkCommands(cmds []fakemaster.Command, serverID uint32, want hist.Pos, at
 			if c.ServerID != serverID {
 				return fmt.Errorf("attempt %d: dump request carries server id %d, configured %d", attemptNo, c.ServerID, serverID)
 			}
-			if c.File != want.File || int64(c.Pos) != want.Off {
-				return fmt.Errorf("attempt %d: dump request asks for %q:%d, the streamer's position is %q:%d", attemptNo, c.File, c.Pos, want.File, want.Off)
+			if !allowed[hist.Pos{File: c.File, Off: int64(c.Pos)}] {
+				return fmt.Errorf("attempt %d: dump request asks for %q:%d, the streamer's position is %v", attemptNo, c.File, c.Pos, keys(allowed))
 			}
 		case 0x1e:
 			return fmt.Errorf("attempt %d: COM_BINLOG_DUMP_GTID sent", attemptNo)
@@ -106,19 +106,37 @@ func checkC07(c *HandshakeCase) error {
 		return fmt.Errorf("harness: %v", err)
 	}
 	defer ss.close()
-	want := start
+	allowed := map[hist.Pos]bool{start: true} // first attempt: exactly the SetBinlogPosition value
 	accepted := 0
 	for i := 0; i <= len(c.Cuts); i++ {
 		at := attempt{l: l}
+		connectFails := false
 		if i < len(c.Cuts) {
-			at.mutate = cutAfterCommits(l, c.Cuts[i])
+			switch {
+			case c.Cuts[i] == -1: // the master refuses the session right at the greeting
+				at.plan = &fakemaster.ConnPlan{HandshakeErr: fakemaster.ErrPacket(1040, "08004", "Too many connections")}
+				connectFails = true
+			case c.Cuts[i] == -2: // the master rejects the checksum announcement
+				at.plan = &fakemaster.ConnPlan{QueryErr: fakemaster.ErrPacket(1227, "42000", "Access denied")}
+				connectFails = true
+			default:
+				at.mutate = cutAfterCommits(l, c.Cuts[i])
+			}
 		}
 		st := ss.run(at)
 		st.drainLib()
 		if err := st.panicErr(); err != nil {
 			return err
 		}
-		if err := checkCommands(st.plan.Cmds(), c.ServerID, want, i+1); err != nil {
+		if connectFails {
+			for _, cmd := range st.plan.Cmds() {
+				if cmd.Code == 0x12 {
+					return fmt.Errorf("attempt %d: a dump was requested although the session setup failed", i+1)
+				}
+			}
+			continue // the position must be unchanged: judged by the next attempt's dump request
+		}
+		if err := checkCommands(st.plan.Cmds(), c.ServerID, allowed, i+1); err != nil {
 			return err
 		}
 		if !st.served {
@@ -129,9 +147,16 @@ func checkC07(c *HandshakeCase) error {
 			return fmt.Errorf("attempt %d: %v", i+1, err)
 		}
 		accepted += len(st.got)
-		if len(st.got) > 0 {
-			last := st.got[len(st.got)-1].NextPosition
-			want = hist.Pos{File: last.Filename, Off: last.Offset}
+		if accepted > 0 || i > 0 || len(c.Cuts) > 0 {
+			// later attempts: the stored resume position = the commit boundary after the last accepted
+			// transaction (or a unit boundary / rotation target up to the next transaction)
+			allowed = allowedResume(l, exp, accepted, start, 0)
+			if accepted == 0 {
+				allowed = map[hist.Pos]bool{start: true}
+				for k, v := range allowedResume(l, exp, 0, start, 0) {
+					allowed[k] = v
+				}
+			}
 		}
 	}
 	if accepted != len(exp) {
@@ -162,7 +187,7 @@ func TestC07(t *testing.T) {
 	defer rec.Flush(t)
 	o := gen.DefaultHistOpt(limits(), false)
 	o.MaxUnits, o.MaxItems, o.MaxRows, o.MaxCols, o.MaxTables = 5, 2, 2, 3, 1
-	o.Rotations = 0
+	o.Rotations = 1
 	o.Ignorables = false
 	o.BigBase = false
 	o.Col = gen.ColumnOpt{Only: []byte{refenc.TLong, refenc.TVarchar, refenc.TTiny}, NoHeavy: true}
@@ -187,14 +212,22 @@ func TestC07(t *testing.T) {
 		default:
 			c.H.FirstFile = rapid.SampledFrom([]string{"a", "bin log.000001", "日志.000003", "x.y.z.000009", "./rel/path-bin.000001"}).Draw(rt, "fname_s")
 		}
+		// file names of one history are distinct (a master never reuses a name)
+		for _, u := range c.H.Units {
+			if (u.Kind == hist.URotate || u.Kind == hist.UFileEnd) && u.NextFile == c.H.FirstFile {
+				c.H.FirstFile += ".first"
+			}
+		}
 		// offset
 		l0, err := c.H.Lay()
 		if err != nil {
 			rt.Skip(err.Error())
 		}
 		size := int64(0)
-		if n := len(l0.UnitEnd); n > 0 {
-			size = l0.UnitEnd[n-1].Off - c.H.Base
+		for _, e := range l0.Events {
+			if e.File == 0 && e.End-c.H.Base > size {
+				size = e.End - c.H.Base
+			}
 		}
 		switch rapid.IntRange(0, 5).Draw(rt, "off_k") {
 		case 0:
@@ -213,7 +246,7 @@ func TestC07(t *testing.T) {
 		}
 		na := rapid.IntRange(0, 3).Draw(rt, "failed_attempts")
 		for i := 0; i < na; i++ {
-			c.Cuts = append(c.Cuts, rapid.IntRange(0, 2).Draw(rt, "cut"))
+			c.Cuts = append(c.Cuts, rapid.IntRange(-2, 3).Draw(rt, "cut"))
 		}
 		// a cut of 0 means: close before any commit (use 1-based semantics: 0 -> cut at first commit is skipped)
 		nt := c.ServerID >= 1<<31 || c.H.Base >= 1<<31 || len(c.Cuts) >= 1
